@@ -45,7 +45,18 @@ def cases(tier, seed):
             kw.update(pre=(0,), iwc_kinds=("Pct",), p_gw=0.0)      # the season starts on the first simulated day
         if m == 1 and i % 12 == 7:
             kw.update(dry=True, regimes=["arid", "hot"], p_file=0.0, p_gw=0.0)
+        if m == 3 and i % 12 == 3:
+            kw.update(end_shape="mid", seasons=(1, 2))       # the window ends inside a growing season
         sp = gen.config(rng, **kw)
+        if m == 3 and i % 12 == 3:
+            # a schedule kept from earlier years: entries dated up to a few months before the start
+            import datetime as dt
+
+            s0 = base.S.d(sp["start"])
+            old = [[gen.fmt(s0 - dt.timedelta(days=int(d))), float(gen.pick(rng, [15.0, 25.0, 40.0]))]
+                   for d in sorted(set(int(x) for x in rng.integers(1, 120, 25)))]
+            have = set(d_ for d_, _ in (sp["irr"].get("schedule") or []))
+            sp["irr"]["schedule"] = [e for e in old if e[0] not in have] + list(sp["irr"].get("schedule") or [])
         if m == 1:
             vals = [float(x) for x in rng.permutation([30, 50, 70, 90])]
             sp["irr"]["kw"]["SMT"] = vals
